@@ -86,6 +86,20 @@ func (v *parser_) ParseSource(source string) (collection any) {
 	// The scanner runs in a separate Go routine.
 	Scanner().Make(v.source_, v.tokens_)
 
+	// If the parsing is abandoned let the scanner run to completion so that its
+	// Go routine is not left blocked forever on a full token queue.
+	defer func() {
+		if r := recover(); r != nil {
+			for {
+				var _, more = v.tokens_.RemoveHead()
+				if !more {
+					break // The scanner has closed the token queue.
+				}
+			}
+			panic(r)
+		}
+	}()
+
 	// Attempt to parse a collection.
 	var token TokenLike
 	var ok bool
